@@ -22,6 +22,12 @@ Proof.
   intros d s H. unfold T in *. simpl. rewrite !concat_app. simpl. rewrite app_nil_r, app_assoc, H. reflexivity.
 Qed.
 
+Lemma T_write_all : forall p s, T s -> T (ssl_write_all p s).
+Proof. unfold ssl_write_all. induction p as [|d r IH]; simpl; intros s H; auto. apply IH, T_write; auto. Qed.
+
+Lemma lock_write_all : forall p s, x_lock (ssl_write_all p s) = x_lock s.
+Proof. unfold ssl_write_all. induction p as [|d r IH]; simpl; intros s; auto. rewrite IH. reflexivity. Qed.
+
 Lemma T_flush : forall s, T s -> T (fst (flush s)).
 Proof.
   intros s H. unfold flush. destruct (x_wbio s) as [|b r] eqn:E; simpl; auto.
@@ -38,9 +44,9 @@ Lemma T_run_task : forall prog t s, T s -> T (x_run_task t prog s).
 Proof.
   induction prog as [|d rest IH]; intros t s H; simpl.
   - apply T_set; auto.
-  - destruct (fl_acquire t (x_lock s)) as [l got]. destruct got.
-    + apply T_after_lock; auto. apply T_lock, T_write; auto.
-    + apply T_set, T_lock, T_write; auto.
+  - destruct (fl_acquire t (x_lock (ssl_write_all d s))) as [l got]. destruct got.
+    + apply T_after_lock; auto. apply T_lock, T_write_all; auto.
+    + apply T_set, T_lock, T_write_all; auto.
 Qed.
 
 Lemma T_step : forall s l s', T s -> x_next s l = Some s' -> T s'.
